@@ -55,7 +55,7 @@ theorem Cache.node_spec {cfg : Cfg} (hcmp : cfg.cmpChildren = true) {c : Cache} 
     ∃ g c', c.node cfg kind cs = (g, c') ∧
       CacheInv cfg c' ∧ c'.interner = c.interner ∧ GWf cfg c.interner g ∧
       resolveG cfg c.interner g = (resolveL cfg c.interner cs).map (Tree.node kind) ∧
-      g.kind = kind ∧ g.len = sumLen cs := by
+      g.kind = kind ∧ g.len = sumLen cs ∧ g.isNode = true := by
   have fresh : ∀ (n : Nat), GWf cfg c.interner (Green.node n kind (sumLen cs) (cfg.H cs) cs) := by
     intro n; simp [GWf, hcs]
   unfold Cache.node
@@ -73,15 +73,15 @@ theorem Cache.node_spec {cfg : Cfg} (hcmp : cfg.cmpChildren = true) {c : Cache} 
       obtain ⟨⟨id, cs', hg⟩, hw⟩ := hc.nodes _ g hm
       subst hg
       simp only [Green.children] at hb
-      refine ⟨_, _, rfl, hc, rfl, hw, ?_, rfl, rfl⟩
+      refine ⟨_, _, rfl, hc, rfl, hw, ?_, rfl, rfl, rfl⟩
       simp [resolveG, resolveL_of_beqL cs' cs hb]
-    · refine ⟨_, _, rfl, ⟨hc.toks, ?_⟩, rfl, fresh _, by simp [resolveG], rfl, rfl⟩
+    · refine ⟨_, _, rfl, ⟨hc.toks, ?_⟩, rfl, fresh _, by simp [resolveG], rfl, rfl, rfl⟩
       intro h g hm
       simp only [List.mem_cons, Prod.mk.injEq] at hm
       rcases hm with ⟨rfl, rfl⟩ | hm
       · exact ⟨⟨_, _, rfl⟩, fresh _⟩
       · exact hc.nodes h g hm
-  · exact ⟨_, _, rfl, ⟨hc.toks, hc.nodes⟩, rfl, fresh _, by simp [resolveG], rfl, rfl⟩
+  · exact ⟨_, _, rfl, ⟨hc.toks, hc.nodes⟩, rfl, fresh _, by simp [resolveG], rfl, rfl, rfl⟩
 
 /-! ### running event lists -/
 
@@ -267,5 +267,66 @@ theorem run_trees {cfg : Cfg} (hcmp : cfg.cmpChildren = true) :
     · simp only [Tree.eventsL]; rw [Builder.run_append, hr1]; exact hr2
     · have := hp1.trans hp2; simpa [Tree.nTokensL] using this
 end
+
+/-- `finish_node` keeps the builder invariant (any state, not only tree-shaped histories) and
+    pushes a node -/
+theorem finishNode_inv {cfg : Cfg} (hcmp : cfg.cmpChildren = true) {b b' : Builder} (hb : BInv cfg b)
+    (h : b.finishNode cfg = .ok b') :
+    BInv cfg b' ∧ b'.cache.interner = b.cache.interner ∧
+      ∃ k first g, b.parents.getLast? = some (k, first) ∧ b'.parents = b.parents.dropLast ∧
+        b'.children = b.children.take first ++ [g] ∧ g.isNode = true := by
+  unfold Builder.finishNode at h
+  cases hl : b.parents.getLast? with
+  | none => simp [hl] at h
+  | some kf =>
+    obtain ⟨k, first⟩ := kf
+    simp only [hl] at h
+    by_cases hf : first > b.children.length
+    · simp [hf] at h
+    · simp only [hf, ↓reduceIte] at h
+      have hkids := hb.kids
+      have hsplit : b.children = b.children.take first ++ b.children.drop first := (List.take_append_drop _ _).symm
+      rw [hsplit, GWfL_append] at hkids
+      obtain ⟨g, c', hnode, hci, hint, hgw, _, _, _, hisn⟩ := Cache.node_spec hcmp hb.cache k (b.children.drop first) hkids.2
+      rw [hnode] at h
+      simp only [Except.ok.injEq] at h
+      subst h
+      refine ⟨⟨hci, ?_⟩, hint, k, first, g, rfl, rfl, rfl, hisn⟩
+      simp only [hint]
+      rw [GWfL_append]; exact ⟨hkids.1, by simp [GWfL, hgw]⟩
+
+/-- `token` keeps the builder invariant when it does not panic -/
+theorem token_inv {cfg : Cfg} {b b' : Builder} (hb : BInv cfg b) {k : Nat} {s : Text}
+    (h : b.token cfg k s = .ok b') : BInv cfg b' := by
+  unfold Builder.token at h
+  cases hst : cfg.staticText k with
+  | some st =>
+    simp only [hst] at h
+    split at h
+    · cases h
+    · obtain ⟨id, hid, hci, hint⟩ := Cache.token_spec hb.cache (k, none, blen st) (by simp [GWf, hst])
+      simp only [Except.ok.injEq] at h
+      subst h
+      refine ⟨hci, ?_⟩
+      simp only [hint]
+      rw [GWfL_append]; refine ⟨hb.kids, ?_⟩
+      simp only [hid]; simp [GWfL, GWf, hst]
+  | none =>
+    simp only [hst] at h
+    cases hin : b.cache.interner.intern s with
+    | none => simp [hin] at h
+    | some r =>
+      obtain ⟨key, I'⟩ := r
+      simp only [hin, Except.ok.injEq] at h
+      have hp := intern_prefix hin
+      have hres := intern_resolve hin
+      have hci' : CacheInv cfg { b.cache with interner := I' } := hb.cache.mono hp.1
+      obtain ⟨id, hid, hci, hint⟩ := Cache.token_spec hci' (k, some key, blen s) (by simp [GWf, hres, hst])
+      have hint' : (Cache.token { b.cache with interner := I' } (k, some key, blen s)).2.interner = I' := hint
+      subst h
+      refine ⟨hci, ?_⟩
+      simp only [hint']
+      rw [GWfL_append]; refine ⟨GWfL_mono hp.1 _ hb.kids, ?_⟩
+      simp only [hid]; simp [GWfL, GWf, hres, hst]
 
 end Cst
